@@ -10,7 +10,7 @@ from .par_common import V
 
 PROP = "C09"
 LEVEL = "exploration"
-TIMEOUT_S = 240.0
+TIMEOUT_S = 600.0
 RULE = ("one run = seeded configuration (all pre_dispatch forms, fixed and auto batch sizes, n_jobs 2..4, inputs of "
         "0..400 items, optional task failure / generator close) x seeded schedule; monitors at every pull event: "
         "re-entrancy, items taken minus tasks completed <= (P + n_jobs) * largest batch, batches in flight <= P, "
